@@ -155,3 +155,19 @@ Theorem writer_confirmed_is_last_fixed : forall q p w,
     (new = [] -> w_paused (drain true q p w) = p).
 Proof. exact drain_fixed_new. Qed.
 Print Assumptions writer_confirmed_is_last_fixed.
+
+(* ---- FAST Neuron/Nano switch reports ---- *)
+(* for ANY interleaving of SA: snapshots and -L:/L: events (including a snapshot equal to an earlier one) the
+   logical state of a configured switch is what the last report about it says *)
+Theorem last_report_wins_fast : forall ops m n inv st0,
+  fget n m = Some (inv, st0) ->
+  fget n (fold_left fstep ops m) = Some (inv, last_fast n inv ops st0).
+Proof. exact last_report_wins_fast_l. Qed.
+Print Assumptions last_report_wins_fast.
+
+Theorem fast_snapshot_decides : forall pre bits m n inv st0,
+  fget n m = Some (inv, st0) ->
+  fget n (fold_left fstep (pre ++ [FSnap bits]) m) =
+  Some (inv, Z.lxor (if inv then 1 else 0) (nth (Z.to_nat n) bits 0)).
+Proof. exact snapshot_decides_l. Qed.
+Print Assumptions fast_snapshot_decides.
